@@ -126,3 +126,72 @@ UNITS = [
                       "chord / unit vector / intercept test / update_length are uninterpreted (any values); NOT PROMOTED: the two soft_zero/soft_equal asserts and 'distance <= step up to rounding'"],
          note="FieldPropagator control logic: distance > 0; returned boundary flag == geometry on-boundary state; looping only with the substep budget spent and distance < step; zero-progress bump is min(bump, step); callee preconditions (advance step > 0, find_next_step distance > 0) hold at the call sites"),
 ]
+
+
+# ---------------------------------------------------------------------------
+# FieldDriver::accurate_advance
+# ---------------------------------------------------------------------------
+FD = "src/celeritas/field/FieldDriver.hh"
+FD_MODEL = """
+#include <math.h>
+typedef struct { real_type v[3]; } Real3;
+typedef struct { Real3 pos; Real3 mom; } OdeState;
+typedef struct { OdeState state; real_type step; } DriverResult;
+typedef struct { DriverResult end; real_type proposed_step; } Integration;    /* {end, proposed_step} */
+typedef struct { real_type initial_step_tol, epsilon_step, minimum_step; short max_nsteps; } FieldDriverOptions;
+typedef struct { FieldDriverOptions const* options_; } FieldDriver;
+real_type g_curve;     /* ghost: true accumulated curve length = sum of the substeps actually integrated */
+#ifndef MAXN
+#define MAXN 3
+#endif
+/* integrate_step(h, state): one adaptive integration; covers 0 < step <= h and proposes a positive next step (its own ENSUREs; the RK numerics are not decided) */
+Integration FD_integrate_step(FieldDriver const* self, real_type h, OdeState const* st)
+__CPROVER_requires(self != 0 && h > 0)
+__CPROVER_assigns(g_curve)
+__CPROVER_ensures(__CPROVER_return_value.end.step > 0 && __CPROVER_return_value.end.step <= h && __CPROVER_return_value.proposed_step > 0)
+__CPROVER_ensures(g_curve == __CPROVER_old(g_curve) + __CPROVER_return_value.end.step)
+;
+static real_type celer_min(real_type a, real_type b) { return fmin(a, b); }
+static real_type celer_max(real_type a, real_type b) { return fmax(a, b); }
+"""
+FD_RULES = [
+    Rule(r"\boptions_\.", "self->options_->", "*", note="const& member"),
+    Rule(r"Integration output;", "Integration output = {{{{{0, 0, 0}}, {{0, 0, 0}}}, 0}, 0};", 1, note="default member initializers"),
+    Rule(r"output\.end\.state = state;", "output.end.state = *state;", 1, note="const& parameter -> pointer"),
+    Rule(r"auto remaining_steps = ", "short remaining_steps = ", 1, note="auto -> short int"),
+    Rule(r"output = this->integrate_step\(h, output\.end\.state\);", "output = FD_integrate_step(self, h, &output.end.state);", 1, note="member call -> stub with its contract"),
+    Rule(r"celeritas::min\(|(?<![\w_])min\(", "celer_min(", "*", note="celeritas::min"),
+    Rule(r"celeritas::max\(|(?<![\w_])max\(", "celer_max(", "*", note="celeritas::max"),
+    Rule(r"CELER_ENSURE\(curve_length > 0\s*&& \(curve_length <= step \|\| soft_equal\(curve_length, step\)\)\);", "CELER_ENSURE(curve_length > 0); /* second conjunct (<= step up to rounding) NOT PROMOTED: FP accumulation */", 1, note="ENSURE split"),
+]
+
+
+def build_accurate_advance(ctx):
+    pc = ctx.func(FD, r"^CELER_FUNCTION DriverResult FieldDriver<StepperT>::accurate_advance\(", FD_RULES, name="FieldDriver::accurate_advance")
+    return (HDR + FD_MODEL + """
+DriverResult FD_accurate_advance(FieldDriver const* self, real_type step, OdeState const* state, real_type hinitial)
+__CPROVER_requires(self != 0 && self->options_ != 0 && state != 0 && g_curve == 0)
+__CPROVER_requires(step > 0 && !__CPROVER_isinfd(step) && !__CPROVER_isnand(hinitial))     /* own CELER_ASSERT */
+/* FieldDriverOptions::operator bool: tolerances positive, step budget >= 1 (<= MAXN for this bounded unit) */
+__CPROVER_requires(self->options_->initial_step_tol > 0 && self->options_->epsilon_step > 0 && self->options_->epsilon_step < 1 && self->options_->minimum_step > 0 && self->options_->max_nsteps >= 1 && self->options_->max_nsteps <= MAXN)
+__CPROVER_assigns(g_curve)
+/* the reported step is positive, never more than requested, and never more than the curve length actually integrated:
+   the returned end state really lies `step` along the curve (up to the rounding of the sum) */
+__CPROVER_ensures(__CPROVER_return_value.step > 0 && __CPROVER_return_value.step <= step && __CPROVER_return_value.step <= g_curve)
+{""" + pc.body + """}
+void h_fda(void)
+{
+    FieldDriverOptions o; FieldDriver d = {&o}; OdeState s; real_type step, h;
+    FD_accurate_advance(&d, step, &s, h);
+    VERIF_CANARY();
+}
+""")
+
+
+UNITS += [
+    Unit("c08_accurate_advance", build_accurate_advance, "h_fda", enforce="FD_accurate_advance", replace=["FD_integrate_step"], unwind=5, timeout=600, object_bits=10, backend=["sat", "cvc5"], defines=["MAXN=3"],
+         bounded="max_nsteps <= 3 (do-while loop unwound)",
+         must_have=[r"FD_accurate_advance.postcondition", r"celer_assert", r"celer_ensure", r"FD_integrate_step.precondition", r"unwinding assertion"], checks=["--bounds-check", "--pointer-check"],
+         assumptions=["integrate_step covers 0 < step <= h and proposes a positive step (its ENSUREs; RK numerics not decided)", "NOT PROMOTED: curve_length <= step up to rounding"],
+         note="FieldDriver::accurate_advance: 0 < reported step <= requested and <= the curve length actually integrated (a track that ran out of integration steps is not reported as having completed the step); h > 0 at every integrate_step call"),
+]
